@@ -9,15 +9,16 @@ V = os.path.dirname(os.path.dirname(os.path.abspath(__file__)))
 sys.path.insert(0, V)
 props = [json.loads(l) for l in open(os.path.join(V, "properties.jsonl"))]
 na = json.load(open(os.path.join(V, "not_applicable.json")))
+CLAIMED = set(open(os.path.join(V, "claimed.txt")).read().split())
 checks = []
 nalist = []
 for p in props:
     pid = p["id"]
     path = os.path.join(V, "specs", pid.lower() + ".py")
     claimed = False
-    if os.path.exists(path):
+    if os.path.exists(path) and pid in CLAIMED:
         spec = importlib.import_module("specs." + pid.lower())
-        claimed = getattr(spec, "CLAIMED", True)
+        claimed = True
     if claimed:
         checks.append(
             {
